@@ -1,8 +1,12 @@
 (* C02 -- Parsing does not depend on how the byte stream is split across reads.
    Statements only; proofs in Proof/ReceiverSplit.v (receivers), Proof/SplitParser.v
-   (head accumulator, parser) and Proof/SplitChan.v (channel loop, lists of reads). *)
+   (head accumulator, counters, limits: the parser), Proof/SplitChan.v (the channel
+   loop and arbitrary lists of reads), Proof/SplitExamples.v (the refutation of the
+   exact-tag statement -- finding F12 / kf_c02_1 -- and examples). *)
 From Coq Require Import List NArith ZArith.
-From WV Require Import Lib.PyBytes Model.Receiver Proof.ReceiverTotal Proof.ReceiverSplit.
+From WV Require Import Lib.PyBytes Model.Receiver Model.Parser Model.ChanSeq
+  Proof.ReceiverTotal Proof.ReceiverSplit Proof.ParserTotal Proof.ParserTotalChan
+  Proof.SplitParser Proof.SplitChan Proof.SplitExamples.
 Import ListNotations.
 
 (* The chunked receiver: one byte and then the rest = everything at once.
@@ -28,3 +32,42 @@ Theorem C02_fixed_one_byte : forall f b s, (1 <= f_remain f)%N -> s <> [] ->
     forall f2 n2, fixed_received f1 s = (f2, n2) -> fixed_received f (b :: s) = (f2, (1 + n2)%Z))).
 Proof. exact fixed_one_byte. Qed.
 Print Assumptions C02_fixed_one_byte.
+
+(* HTTPRequestParser.received (head accumulator with its byte counter and 431
+   test, both body receivers, the running body counter and 413 test): one byte and
+   then the rest versus everything at once -- see [split_case] in
+   Proof/SplitParser.v: same outcome (SC_stop), same outcome after the rest up to
+   dead carry fields (SC_cont / cont_rel), or both runs refuse the message
+   (SC_error; observation equal with 413 and a chunk error identified) *)
+Theorem C02_parser_one_byte : forall a r0 b s, wf_p a r0 -> s <> [] -> split_case a r0 b s.
+Proof. exact parser_split. Qed.
+Print Assumptions C02_parser_one_byte.
+
+(* the event-producing run used below computes exactly the model's feed *)
+Theorem C02_trace_is_model : forall ab a reads c, fst (feed_tr ab a c reads) = feed a c reads.
+Proof. intros ab a reads c. apply feed_tr_fst. Qed.
+Print Assumptions C02_trace_is_model.
+
+(* C02 for the sequential channel model: for every configuration and any two
+   ways of dividing the same byte stream into reads (all 2^(n-1) of them), the
+   sequence of events -- "100 Continue sent", "request completed" with every
+   attribute a task reads and the body bytes -- up to and including the first
+   refused request is the same.  Observation [obs true]: carry fields erased, a
+   refusal raised inside a chunked body observed as "refused" (413 and the 400
+   chunk errors identified: finding F12, class kf_c02_1). *)
+Theorem C02_split_independent : forall a reads1 reads2, concat reads1 = concat reads2 ->
+  cut (snd (feed_tr true a chan_init reads1)) = cut (snd (feed_tr true a chan_init reads2)).
+Proof. exact split_independent. Qed.
+Print Assumptions C02_split_independent.
+
+Theorem C02_split_vs_whole : forall a reads,
+  cut (snd (feed_tr true a chan_init reads)) = cut (snd (feed_tr true a chan_init [concat reads])).
+Proof. exact split_vs_whole. Qed.
+Print Assumptions C02_split_vs_whole.
+
+(* the statement with exact error tags ([obs false]) is false of the code:
+   a chunked body with an invalid size line followed by >= max_request_body_size
+   bytes is a 413 in one read and a 400 byte-wise *)
+Theorem C02_exact_refuted : ~ split_independent_exact.
+Proof. exact split_independent_exact_refuted. Qed.
+Print Assumptions C02_exact_refuted.
